@@ -5,10 +5,9 @@
           h_send_sched sqrange <lo> <hi>         every argument in [lo, hi)
           h_send_sched retry <blo> <bhi> <na> <seed>   births number blo..bhi-1 x na ages x 2 channels
                                                  (dense + boundary + random; birth i is a function of (seed, i) only)
-   Reference: isqrt by floating sqrt + integer fix-up (independent of the bit-by-bit method);
+   Reference: isqrt by Newton iteration + fix-up (independent of the bit-by-bit method);
    nextretry(birth, c) = birth + (isqrt(max(0, recent - birth)) + (c == 0 ? 10 : 20))^2 and > recent. */
 #include <unistd.h>
-#include <math.h>
 #include "nqvh.h"
 
 #define main nqv_send_main
@@ -17,9 +16,13 @@
 
 static long long cases, nontriv;
 
+/* reference integer square root: Newton iteration from above + fix-up (no libm: qsutil.h's log2 clashes with math.h) */
 static unsigned long ref_isqrt(unsigned long x)
 {
-  unsigned long r = (unsigned long) sqrt((double) x);
+  unsigned long r, t;
+  if (x < 2) return x;
+  r = x; t = (r + 1) / 2;
+  while (t < r) { r = t; t = (r + x / r) / 2; }
   while (r * r > x) --r;
   while ((r + 1) * (r + 1) <= x) ++r;
   return r;
@@ -37,6 +40,7 @@ static void sq(unsigned long x, int count_distinct)
 {
   unsigned long y = (unsigned long) squareroot((datetime_sec) x);
   cases++;
+  if ((cases & 0x3fffff) == 77) { char t[80]; snprintf(t, sizeof t, "squareroot(%lu)=%lu", x, y); nqv_sample((unsigned char *) t, strlen(t), 1); }
   if (x) { nontriv++; if (count_distinct) nqv_distinct_h(x * 0x9E3779B97F4A7C15ULL + 1); }
   if (!(y * y <= x)) { viol("C15/squareroot/too-large", "squareroot(x)^2>x", (long) x, 0, 0, (long) y); return; }
   if (!(x < (y + 1) * (y + 1))) { viol("C15/squareroot/too-small", "x>=(squareroot(x)+1)^2", (long) x, 0, 0, (long) y); return; }
@@ -48,6 +52,7 @@ static void retry(long birth, long age, int c)
   recent = birth + age;
   r = (long) nextretry((datetime_sec) birth, c);
   cases++;
+  if ((cases & 0x7ffff) == 4099) { char t[120]; snprintf(t, sizeof t, "nextretry(birth=%ld,chan=%d) with recent=birth%+ld -> birth+%ld", birth, c, age, r - birth); nqv_sample((unsigned char *) t, strlen(t), 1); }
   a = age < 0 ? 0 : age;
   n = (long) ref_isqrt((unsigned long) a) + (c == 0 ? 10 : 20);
   want = birth + n * n;
